@@ -5,7 +5,8 @@ ENGINE = 'genscan+mirfacts'
 EXPLANATION = ('On every generated lexer of the corpus (both code generators): along every path of every state the symbolic offsets of successive reads never decrease, every offset mutation is += c with c >= 0 '
                'except the bracket of the tail-call jump table (no read in between) and the reset `offset = lex.offset()` directly after lex.trivia() in the Skip arm; transitions hand over the live offset + 1; '
                'outside the fast loop a state performs exactly one dispatch read, inside it each byte is read at most by one chunk read and one byte read: reads <= 3 x bytes examined + 3. '
-               'On MIR: LexerInternal::read forwards to Source::read with the given offset and touches no state, and the runtime\'s own rounding (find_boundary) only uses is_char_boundary on the same source.')
+               'On MIR: LexerInternal::read forwards to Source::read with the given offset and touches no state, and the runtime\'s own rounding (find_boundary) only uses is_char_boundary on the same source.'
+               ' Since the E5 engine (G20, kind overrun): no graph state continues reading when the reference automaton is dead, i.e. no byte is read that cannot belong to any match.')
 
 
 def run(ctx, rep):
